@@ -548,7 +548,11 @@ def a6(prog, ctx, defs):
                         l6 = cfg.edge_lit(b2, i2)
                         if l6 is not None:
                             inter.append(l6)
-            direct = bool(inter) and all(l6.kind == "truth" and l6.atom in pn6 for l6 in inter)
+                # a switch that still chooses (more than one way out) between the test and the store decides as well
+                if any(cfg.blocks[b2].termk == "SwitchStmt" and len([x for x in cfg.blocks[b2].succs if x is not None]) > 1
+                       and sb6 in cfg.reachable(b2) for b2 in region):
+                    inter.append(None)
+            direct = all(l6 is not None and l6.kind == "truth" and l6.atom in pn6 for l6 in inter)
         others = [x for x in cut if False]
         if ok and cut and direct and "def" in src:
             ctx.ok("A6", "%s returns the default exactly when the key is absent" % n, st.where, "*result = %s behind error == ECONF_NOKEY only" % src)
